@@ -21,7 +21,7 @@ pub fn spec() -> Spec {
         rule: "family 'small': every r x c integer matrix with r, c <= 3 and entries in [-2, 2] ([-1, 1] for 3 x 3 at the quick tier), in the backends i64, BigRational and PrimeResidueClass<P> for P in {2, 3, 5, 7, 61, 3037000493}, and through the const-generic Matrix (hook wrappers) for i64 and BigRational; for each matrix rank, determinant, null space, inverse and solve against every right-hand side in {-1,0,1}^r; family 'four': 4 x 4 (and 3 x 4, 4 x 3) matrices with entries in {-1,0,1} and <= 2 non-zeros per row; family 'big': all 2 x 2 / 3 x 3 matrices over {0, 1, -1, 10^9, -999999937} for BigRational and the p-adic solver; family 'walk': shapes up to 6 x 6 reached from diagonal seeds by unimodular operations; family 'residues': field axioms on all pairs/triples for 5 small primes, canonical representative for every integer in [-3P, 3P] and boundary integers of the large prime through From<i64> and From<i32>; family 'padic': modular_solver::solve against Cramer's rule. Oracle: exact arithmetic on BigInt fractions - rank = size of the largest non-zero minor, determinant by Laplace expansion, consistency by rank(A) = rank(A|b), returned solutions verified by multiplication. Non-trivial = rank >= 1 and not full rank or a non-unit determinant.",
         assumptions: &["num-bigint / num-rational arithmetic is trusted (third-party); the reference algorithms (minors, Laplace, Cramer) are different from the crate's elimination", "the i64 backend is only required to be sound for solve (Some(x) => A x = b) and exact for rank / determinant / null space while no intermediate overflows; entries are tiny there"],
         bounds: |t| json!({"small_entries": 2, "small_3x3_entries": t.pick(1, 2), "rhs_entries": [-1, 0, 1], "four_nonzeros_per_row": 2, "big_alphabet": [0, 1, -1, 1000000000i64, -999999937i64],
-            "walk_max_shape": 6, "walk_depth": t.pick(2, 3), "padic_3x3_entries": 1, "padic_3x3_rhs": if t.is_thorough() { 27 } else { 3 }, "padic_2x2_entries": t.pick(3, 4)}),
+            "walk_max_shape": 6, "walk_depth": t.pick(2, 3), "padic_3x3_entries": 1, "padic_3x3_rhs": if t.is_thorough() { 27 } else { 3 }, "padic_2x2_entries": t.pick(3, 4), "padic_multi_column_rhs": "every ordered choice of 2 or 3 of {zero, small, 10^5-sized, 10^9-sized} columns on every padic-family matrix (3x3: the first 6 at the quick tier)"}),
     }
 }
 
@@ -1066,6 +1066,77 @@ fn padic_case_(ctx: &mut Ctx, m: &Mat, rhs: &[Vec<i64>]) {
     }
 }
 
+/// the p-adic solver with a right-hand side of SEVERAL columns at once (the number of lifting steps is
+/// derived from the whole right-hand side, so columns of very different size must not disturb each other);
+/// every column of the answer is compared with Cramer's rule
+fn padic_multi(ctx: &mut Ctx, m: &Mat, cols: &[Vec<i64>]) {
+    let n = m.len();
+    let big = to_big(m);
+    let d = det_big(&big);
+    let p = BigInt::from(3_037_000_493i64);
+    if (&d % &p).is_zero() {
+        return; // singular modulo the prime: outside the statement
+    }
+    let bm: Mat = (0..n).map(|i| cols.iter().map(|c| c[i]).collect()).collect();
+    let scase = json!({"family": "padic-multi", "rows": m, "rhs_columns": cols});
+    ctx.announce(&scase);
+    ctx.count(true);
+    ctx.ops(1);
+    let weight = (n * 10 + cols.len()) as u64;
+    let a = vm_i64(m, n);
+    let bv = vm_i64(&bm, cols.len());
+    match ctx.guard(|| modular_solver::solve(&a, &bv)) {
+        Ok(Some(x)) => {
+            let xs = q_rows(&x);
+            let mut ok = xs.len() == n && xs.iter().all(|r| r.len() == cols.len());
+            if ok {
+                'outer: for (k, b) in cols.iter().enumerate() {
+                    for j in 0..n {
+                        let mut mj = big.clone();
+                        for i in 0..n {
+                            mj[i][j] = BigInt::from(b[i]);
+                        }
+                        if xs[j][k] != BigRational::new(det_big(&mj), d.clone()) {
+                            ok = false;
+                            break 'outer;
+                        }
+                    }
+                }
+            }
+            if !ok {
+                ctx.violation("padic-wrong", scase, format!("modular solver returned {:?}, Cramer's rule disagrees", xs), weight);
+            }
+        }
+        Ok(None) => ctx.violation("padic-missed", scase, "modular solver returned None for a system that is non-singular modulo its prime".into(), weight),
+        Err(msg) => ctx.violation("panic:padic", scase, msg, weight),
+    }
+}
+
+/// right-hand sides of several columns built from a zero, a small and two large columns, in every order of every
+/// non-empty subset of <= 3 of them
+fn multi_rhs(n: usize) -> Vec<Vec<Vec<i64>>> {
+    let basis: Vec<Vec<i64>> = vec![
+        vec![0; n],
+        (0..n as i64).map(|k| 1 - k).collect(),
+        (0..n as i64).map(|k| 100_000 + 7 * k).collect(),
+        (0..n as i64).map(|k| if k % 2 == 0 { 1_000_000_000 } else { -999_999_937 }).collect(),
+    ];
+    let mut out = vec![];
+    for a in 0..basis.len() {
+        for b in 0..basis.len() {
+            if a != b {
+                out.push(vec![basis[a].clone(), basis[b].clone()]);
+                for c in 0..basis.len() {
+                    if c != a && c != b {
+                        out.push(vec![basis[a].clone(), basis[b].clone(), basis[c].clone()]);
+                    }
+                }
+            }
+        }
+    }
+    out
+}
+
 // unimodular walk to larger shapes --------------------------------------------------------
 
 fn walk_shapes(ctx: &mut Ctx, depth: usize) {
@@ -1201,20 +1272,32 @@ fn run(ctx: &mut Ctx) {
     // family padic
     let e2 = tier.pick(3, 4);
     let vals2: Vec<i64> = (-e2..=e2).collect();
+    let multi2 = multi_rhs(2);
     for_each_matrix(2, 2, &vals2, &mut |m| {
         if ctx.take() {
             padic_case(ctx, m, &all_rhs(2));
+            for cols in &multi2 {
+                padic_multi(ctx, m, cols);
+            }
         }
     });
+    let multi1 = multi_rhs(1);
+    let multi3 = multi_rhs(3);
     let rhs3: Vec<Vec<i64>> = if tier.is_thorough() { all_rhs(3) } else { vec![vec![1, 1, 1], vec![1, 0, -1], vec![0, 1, 0]] };
     for_each_matrix(3, 3, &[-1, 0, 1], &mut |m| {
         if ctx.take() {
             padic_case(ctx, m, &rhs3);
+            for cols in multi3.iter().take(tier.pick(6, usize::MAX)) {
+                padic_multi(ctx, m, cols);
+            }
         }
     });
     for_each_matrix(1, 1, &[-3, -2, -1, 0, 1, 2, 3, 1_000_000_007, 3_037_000_493, -3_037_000_493, 6_074_000_986], &mut |m| {
         if ctx.take() {
             padic_case(ctx, m, &[vec![1], vec![0], vec![-7], vec![3_037_000_493]]);
+            for cols in &multi1 {
+                padic_multi(ctx, m, cols);
+            }
         }
     });
     // family residues
